@@ -96,8 +96,11 @@ func runC18(cs c18case) (msg string) {
 		}
 	case "seeds":
 		a := doSearch(ctx, fresh(), cs.Root, cs.Depth, 0, eval.Random{})
-		for _, seed := range []int64{1, 2, 77, 20260917} {
+		for _, seed := range []int64{1, 2, 77, 20260917, bridge.DegenerateSeed} {
 			if b := doSearch(ctx, fresh(), cs.Root, cs.Depth, seed, eval.Random{}); a != b {
+				if seed == bridge.DegenerateSeed {
+					return fmt.Sprintf("with hash seed 0 the search returned %v, with a hash table that maps every position to 0 (no hash table in use: hash values must not matter) %v", a, b)
+				}
 				return fmt.Sprintf("with hash seed 0 the search returned %v, with hash seed %d %v", a, seed, b)
 			}
 		}
@@ -174,7 +177,7 @@ func runC18Engine(word []string) string {
 
 func checkC18(c *harness.Check) {
 	mustAnchors(c)
-	c.Rule = "sequential half of C18 (the concurrent half runs under the interleaving explorer): for every (root of the search corpus, depth, configuration of the 7 search configurations): (repeat) the same search twice on one Search value and once on a second one; (after) the search after every other root of the corpus / every pair was searched first on the same Search value; (seeds) Zobrist seeds 0,1,2,77,20260917 incl. roots whose history contains repetitions; (twins) every root that has a history right after / before its history-less twin (same position set up directly) on the same Search value; (noise) evaluation noise twice from the same seed - (score, PV, node count) must be identical. Engine operation words of length <= 4 over {reset F (incl. a root one move from a fifty-move draw), shuffle into a three-fold, move i, takeback, analyze d, halt}: Position() and the full Board() snapshot are unchanged by analyze/halt. Engine words of length <= 5 over {noise 5000, noise 0, reset A, reset B, move, analyze (no depth given: the Depth option applies), analyze 1, analyze 3, depth 1 (sets the option)} ending in an analysis, no table: every analysis identical on two engines with the same seed, and - for a game set up while the noise option is 0 - equal to that of a fresh engine that never had noise on (other hash seed) analysing that game to that depth (the depth given with the command, else the option as last set); the Depth option reads back as last set after every analysis. distinct_nontrivial = distinct cases with depth >= 1"
+	c.Rule = "sequential half of C18 (the concurrent half runs under the interleaving explorer): for every (root of the search corpus, depth, configuration of the 7 search configurations): (repeat) the same search twice on one Search value and once on a second one; (after) the search after every other root of the corpus / every pair was searched first on the same Search value; (seeds) Zobrist seeds 0,1,2,77,20260917 and the zero-value table under which EVERY position hashes to 0 (without a hash table hash values must not matter at all), incl. roots whose history contains repetitions; (twins) every root that has a history right after / before its history-less twin (same position set up directly) on the same Search value; (noise) evaluation noise twice from the same seed - (score, PV, node count) must be identical. Engine operation words of length <= 4 over {reset F (incl. a root one move from a fifty-move draw), shuffle into a three-fold, move i, takeback, analyze d, halt}: Position() and the full Board() snapshot are unchanged by analyze/halt. Engine words of length <= 5 over {noise 5000, noise 0, reset A, reset B, move, analyze (no depth given: the Depth option applies), analyze 1, analyze 3, depth 1 (sets the option)} ending in an analysis, no table: every analysis identical on two engines with the same seed, and - for a game set up while the noise option is 0 - equal to that of a fresh engine that never had noise on (other hash seed) analysing that game to that depth (the depth given with the command, else the option as last set); the Depth option reads back as last set after every analysis. distinct_nontrivial = distinct cases with depth >= 1"
 	var cases []c18case
 	roots := searchRoots
 	for _, cfg := range searchCfgs {
